@@ -103,6 +103,7 @@ func (propC07) Gen(r *Rng, tier string) *World {
 	w.Cfg = g.C
 	w.Cfg.ViaDirect = r.P(0.2)
 	w.Cfg.DirStyle = r.Intn(6)
+	w.Cfg.ViaAPI = r.P(0.4)
 	if r.P(0.35) {
 		w.Extra["engine"] = "inline"
 		genC07Tasks(r, g, w, 1)
@@ -396,6 +397,7 @@ func (pr propC07) Run(w *World, st *Stats) *Violation {
 			st.Nontrivial(wh)
 		}
 		st.ProbeN("task_switches_at_seams", switches)
+		st.Faults["chan_capacity_"+strconv.Itoa(w.ChCap)]++
 		st.Probe("bubble_runs")
 	case "baton":
 		if v := setup(ample); v != nil {
